@@ -82,11 +82,15 @@ func decodeC09(raw json.RawMessage) (any, error) {
 
 // checkBatch compares one response and the handler trace of one request with the
 // reference model written from the property statement (DESIGN Appendix C).
-func checkBatch(x *X, prop string, rs *ReqSc, prefix string, supported []kmip.ProtocolVersion, resp *kmip.ResponseMessage, trace []hEvent) {
+func checkBatch(x *X, prop string, rs *ReqSc, prefix string, supported []kmip.ProtocolVersion, resp *kmip.ResponseMessage, trace []hEvent, connID string) {
 	req := buildRequest(rs, prefix)
 	// handler executions of this request, in order
 	var started []string
 	for _, ev := range trace {
+		if connID != "" && ev.ConnID != connID {
+			// another connection's handler (its token may have been altered by a corrupted frame to look like ours)
+			continue
+		}
 		if ev.Kind == "start" && strings.HasPrefix(ev.ID, prefix+".") {
 			started = append(started, ev.ID)
 		}
@@ -276,7 +280,7 @@ func execC09(x *X, scAny any) {
 			x.Reportf("C09.transport-error", "roundtrip", "request r%d failed on a healthy transport: %v", i, errs[i])
 			continue
 		}
-		checkBatch(x, "C09", &sc.Reqs[i], fmt.Sprintf("r%d", i), supported, resps[i], w.trace)
+		checkBatch(x, "C09", &sc.Reqs[i], fmt.Sprintf("r%d", i), supported, resps[i], w.trace, "")
 	}
 }
 
